@@ -189,12 +189,12 @@ func (c *TCPConn) Read(p []byte) (n int, err error) {
 	// the same from SetReadDeadline
 	c.armClock(c.rdl)
 	vs.Block("tcp.read", func() bool {
-		return c.closed || c.rst || len(c.rbuf) > 0 || c.fin || (c.rdl != 0 && vs.VNow() >= c.rdl) || len(p) == 0
+		return c.closed || c.rst || len(c.rbuf) > 0 || c.fin || expired(c.rdl) || len(p) == 0
 	}, func() {
 		switch {
 		case c.closed:
 			err = c.operr("read", errClosedConn)
-		case c.rdl != 0 && vs.VNow() >= c.rdl:
+		case expired(c.rdl):
 			err = c.operr("read", os.ErrDeadlineExceeded)
 		case len(c.rbuf) > 0:
 			// what was received before a FIN or RST is still handed over (Linux keeps the receive queue)
@@ -214,7 +214,7 @@ func (c *TCPConn) Write(p []byte) (n int, err error) {
 		switch {
 		case c.closed:
 			err = c.operr("write", errClosedConn)
-		case c.wdl != 0 && vs.VNow() >= c.wdl:
+		case expired(c.wdl):
 			err = c.operr("write", os.ErrDeadlineExceeded)
 		case c.rst:
 			err = c.operr("write", os.NewSyscallError("write", syscall.ECONNRESET))
@@ -238,6 +238,9 @@ func (c *TCPConn) Close() (err error) {
 	return
 }
 
+// expired: 0 = no deadline, -1 = expired when it was set, else a virtual instant
+func expired(dl int64) bool { return dl < 0 || (dl > 0 && vs.VNow() >= dl) }
+
 func (c *TCPConn) armClock(dl int64) {
 	if dl != 0 && dl > vs.VNow() {
 		vs.At(time.Duration(dl-vs.VNow()), func() {})
@@ -252,9 +255,10 @@ func (c *TCPConn) setDL(t time.Time, r, w bool) (err error) {
 		}
 		var v int64
 		if !t.IsZero() {
-			v = t.Sub(vs.Now()).Nanoseconds() + vs.VNow()
-			if v <= 0 {
-				v = 1 // a deadline in the past: already expired
+			if d := t.Sub(vs.Now()).Nanoseconds(); d <= 0 {
+				v = -1 // a deadline that is not in the future: expired from the start (as in the runtime's poller)
+			} else {
+				v = d + vs.VNow()
 			}
 		}
 		if r {
